@@ -24,7 +24,21 @@ META = dict(
          "on-disk path); for every on-disk case each chunk file, as re-read by the implementation (verif tap), is compared with what was sent "
          "to it on the modelled projection (= the hypothesis of C06_disk_equals_memory, checked per case); the real demerge worker is compared "
          "with the model too; the built obiuniq / obidemerge binaries are checked against the oracle and for the demerge round trip; the "
-         "on-disk mode is stressed in 24 concurrent processes and, deterministically, with every chunk file completed 5-20 ms late.",
+         "on-disk mode is stressed in 24 concurrent processes and, deterministically, with every chunk file completed 5-20 ms late. "
+         "Round 3: the pieces below IUniqueSequence are driven alone, each judged by a direct oracle AND compared with the model: classifier "
+         "objects (AnnotationClassifier, SequenceClassifier; HashClassifier and DualAnnotationClassifier by the oracle only) through histories "
+         "of Code / Value / Reset / Clone calls — theorems: Value(Code v) = v, codes stay decodable until Reset, two records share a code iff "
+         "they share the value, the table is the list of values in first-appearance order, a coded value is decoded by Value at any later step "
+         "until the next Reset whatever happened before (C06_classifier_value_after_code), a code never issued is refused; "
+         "IBioSequence.Distribute with and without a batch size (one output per class, Value(code) names it); ISequenceSubChunk with 0 (default), 1, 2, 3 workers "
+         "— theorem C06_subchunk_any_sort: for ANY rearrangement sorted by code the batches pushed are the classes of the model's `groups` up "
+         "to the order inside a class; obiiter.MergePipe / IMergeSequenceBatch with and without a batch size; BioSequence.Merge in place and on "
+         "a copy (receiver untouched, qualities dropped), merged_<slot> attributes of the wrong shape (not a map: the record counts as raw; map "
+         "with a non-numeric weight: refused); the option setters as call histories (contradicted options, one call per key) and every "
+         "accessor. Through the commands: input as one file / several files / gzip / FASTQ, --batch-size 1/3/1000 (obiuniq sets 10), "
+         "--no-order, --force-one-cpu, --max-cpu 1, --out with and without --compress, -m k with -m k:w, --no-singleton with -c, data sets of "
+         "several input batches, a TMPDIR that does not exist (on disk: error and no record; in memory: unaffected), obidemerge without -d "
+         "(identity), obiuniq -m k:w | obidemerge -d k:w | obiuniq -m k (merged_k = merged_k:w; theorem C06_demerge_weighted for the worker).",
     note="Trusted: Coq kernel + vm_compute, harness, generators/renderers (strings are interned to N codes by the renderer; the typed view of a "
          "value — Go type tag, fmt.Sprint form, canonical JSON, StatsPlusOne key, InterfaceToInt — is computed by the harness in Go next to "
          "the code, the Python oracle computes its own). Go int (OBI-format headers, harness default) and float64 (what the JSON header reader leaves every number; harness "
@@ -36,7 +50,7 @@ META = dict(
          "C06_count_is_sum_nonpositive_refuted shows the order dependence; such cases are driven and compared with the model, the direct "
          "oracle judges only their classes. Not modelled: the rewriting "
          "of a weight attribute by GetIntAttribute (float64 -> int), so the survival of an attribute used as a weight is not claimed and an attribute used both as a weight and as a category "
-         "is not driven (a float 3.25 would be rewritten as 3 and shown as the key); "
+         "(or as the key of another -m) is not driven (a float 3.25 would be rewritten as 3 and shown as the key); "
          "qualities (dropped by Merge); records without nucleotides on disk (refused by the chunk reader by design: expected to stop). "
          "C06_disk_equals_memory assumes the round trip (C02's statement) and is re-checked per on-disk case; integers >= 1e6 are not "
          "generated in attributes (fmt.Sprint of the re-read float64 differs: 1e+06). The hash is a Section variable. Go channels / scheduler "
@@ -45,9 +59,23 @@ META = dict(
          "dereplication on (sequence, merged map, count = total of the map). disk_stress detection of 'chunk files read before they are "
          "complete', measured in round 2 on the tree with the wait removed (25 large cases, machine load > 100): 0/25 in one process without "
          "delay, 11/600 in 24 concurrent processes, 22/25 with chunk files completed 5 ms late and 24/25 with 20 ms (one process; replay of "
-         "one such case: 20/20); 0 on the unchanged tree in all four settings.")
+         "one such case: 20/20); 0 on the unchanged tree in all four settings. "
+         "Round 3, not exercised (anchored code outside the property): PredicateClassifier and RotateClassifier (classifiers of obidistribute / "
+         "obisplit, not used by the dereplication; DualAnnotationClassifier is driven for its code table only), the branches of "
+         "obiformats.WriterDispatcher for DualAnnotationClassifier keys, compressed names and directories (obidistribute), because "
+         "they belong to other commands (the explicit batch size argument of IBioSequence.Distribute, which no caller in the dereplication "
+         "passes, is driven all the same); the input / output "
+         "failure branches (a chunk file that cannot be created, written, flushed, closed or read back, a WalkDir error: writeChunkFile, find, "
+         "ISequenceChunkOnDisk) because they need a failing file system — the failure to create the temporary directory IS exercised; the "
+         "log.Fatalf branches on a flux that was announced but is unknown (ISequenceChunk, WriterDispatcher, IDistribute.Outputs) because they "
+         "cannot be reached. Options.BatchSize is stored and never read by IUniqueSequence (--batch-size acts through obioptions: exercised by "
+         "the CLI variants). Outside the property: a weight < 1 in a merged map demerges to a record of count 1 (SetCount; the quantifier has "
+         "counts >= 1, C06_weights_positive); a map of non-integral numbers in merged_<k> is truncated by InterfaceToInt when merged, written "
+         "as it came for a singleton; Value() of a code issued before the last Reset is not judged.")
 TRUSTED = ["CRC32 is NOT trusted: the hash is a Section variable h : list N -> nat, theorems hold for every h and every chunk count",
-           "classifier code tables + sort.Sort (unstable) + split are modelled as: classes in first-appearance order, members in arrival order; "
+           "classifier code tables + sort + split of ISequenceSubChunk: modelled (code1 / coded / runs, compared with the real classifier objects "
+           "and the real ISequenceSubChunk on every run) and PROVED to give the classes of `groups` — first-appearance order, members in any order "
+           "(C06_subchunk_any_sort) — for any rearrangement sorted by code; what stays trusted is that sort.Sort returns such a rearrangement; "
            "C06_order_hash_chunks_independent shows the projection does not depend on the order inside or between classes",
            "the range over the Go map statsOn is modelled as independent slots (a map over the list of requested slots)",
            "Section hypothesis C02_fasta_fastq_roundtrip_projected of C06_disk_equals_memory: writing a record to a chunk file (FASTA or FASTQ "
@@ -149,10 +177,25 @@ def key_of(r, cats, na):
     return (r["seq"].lower(), tuple(val(r, c, na) for c in cats))
 
 
+def numeric_map(v):
+    return isinstance(v, dict) and all(isinstance(x, (int, float)) and not isinstance(x, bool) for x in v.values())
+
+
+def eff_merged(r):
+    """the merged_<k> maps a record carries as far as StatsOn is concerned: a map of integers; a map of numbers is read
+    through InterfaceToInt (truncated); an attribute merged_<k> of any other shape (badmerged: string, list, number, null)
+    is replaced by a fresh map holding the record itself = the record counts as a raw one"""
+    m = dict(r.get("merged") or {})
+    for k, v in (r.get("badmerged") or {}).items():
+        if numeric_map(v):
+            m[k] = {a: int(b) for a, b in v.items()}
+    return m
+
+
 def contrib(r, desc, na):
     """what record r contributes to merged_<desc>: its own merged map if it has one, else {value: weight};
     desc = key or key:weight_attribute (weight = that integer attribute, 0 when absent; default weight = count)"""
-    m = (r.get("merged") or {}).get(desc)
+    m = eff_merged(r).get(desc)
     if m is not None:
         return dict(m)
     k, _, wk = desc.partition(":")
@@ -209,7 +252,7 @@ def fatal_expected(case):
             for d in case["stats"]:
                 k = d.partition(":")[0]
                 a = r.get("attrs") or {}
-                if d not in (r.get("merged") or {}) and k in a and statkey(a[k]) is None:
+                if d not in eff_merged(r) and k in a and statkey(a[k]) is None:
                     return True
     return False
 
@@ -289,9 +332,12 @@ KEYS = ["sample", "tag", "w", "x"]
 def gen_multiset(rng, big=False, wide=False):
     nseq = rng.choice([1, 1, 2, 3, 4, 6, 12] if not big else [8, 20, 40])
     seqs = set()
+    # wide: also sequences longer than one line of a chunk file (60 letters per FASTA line) and IUPAC ambiguity codes
+    lens = SEQ_POOL_LEN + ([59, 60, 61, 120, 121, 200] if wide else [])
+    alpha = rng.choice(["acgt", "acgt", "acgtnryswkm"]) if wide else "acgt"
     while len(seqs) < nseq:
-        L = rng.choice(SEQ_POOL_LEN)
-        seqs.add("".join(rng.choice("acgt") for _ in range(L)))
+        L = rng.choice(lens)
+        seqs.add("".join(rng.choice(alpha) for _ in range(L)))
     seqs = sorted(seqs)
     if wide and rng.random() < 0.3:
         # the same nucleotides in another case are the same sequence
@@ -303,7 +349,8 @@ def gen_multiset(rng, big=False, wide=False):
     pools = {}
     for k in KEYS:
         if ktype[k] == "s":
-            pools[k] = rng.sample(["A", "B", "C", "NA", "a b", "x1", "é", ""], rng.choice([1, 2, 3]))
+            pools[k] = rng.sample(["A", "B", "C", "NA", "a b", "x1", "é", ""] + (['q"uote', "back\\slash", "tab\there", "{brace}", "a;b=c"] if wide else []),
+                                  rng.choice([1, 2, 3]))
         elif ktype[k] == "i":
             pools[k] = rng.sample([0, 1, 2, 7, 100, -3], rng.choice([1, 2, 3]))
         elif ktype[k] == "f":
@@ -373,13 +420,22 @@ def gen_config(rng, disk=None):
     # (an attribute used as a weight is rewritten by GetIntAttribute — 3.25 becomes 3 —: using the same attribute as a
     #  category at the same time is not driven)
     stats = [d if d.partition(":")[2] not in cats else d.partition(":")[0] + ":wt" for d in stats]
+    # (likewise an attribute used as a weight and as the key of another -m: which of the two reads it first depends on the
+    #  range over a Go map)
+    skeys = {d.partition(":")[0] for d in stats}
+    stats = [d if d.partition(":")[2] not in skeys else d.partition(":")[0] + ":wt" for d in stats]
+    if cats and rng.random() < 0.1:
+        cats.insert(rng.randrange(len(cats) + 1), rng.choice(cats))       # the same category given twice
+    if stats and rng.random() < 0.1:
+        stats.append(rng.choice(stats))                                    # the same -m twice
     return dict(cats=cats, stats=stats, na=rng.choice(["NA", "NA", "NA", "none", "A", "", "1", "true"]),
                 nosingleton=rng.random() < 0.3)
 
 
 def gen_sched(rng, disk=None):
     return dict(disk=(rng.random() < 0.35) if disk is None else disk, chunks=rng.choice([1, 2, 7, 100, 1000]),
-                workers=rng.randrange(1, 9), batch=rng.choice([1, 2, 3, 5, 50]), dbatch=rng.choice([0, 0, 1, 2, 3]))
+                workers=rng.randrange(1, 9), batch=rng.choice([1, 2, 3, 5, 50]), dbatch=rng.choice([0, 0, 1, 2, 3]),
+                opthist=rng.choice([0, 0, 1]))
 
 
 def R(id, seq, count=0, attrs=None, merged=None, mk="stats"):
@@ -471,6 +527,20 @@ def corpus():
     return cs
 
 
+BAD_MERGED = ["garbage", ["A", 2], 7, None, {"A": 2.5, "B": 1.0}, {"Z": 3}, {}]
+
+
+def bad_merged(rng, recs, stats):
+    """input class: a merged_<slot> attribute of a requested slot that is not a map of integers (string, list, number,
+    null: the record counts as a raw one; map of floats: truncated) on a few records that carry no map for the slot"""
+    if not stats or not recs:
+        return
+    d = rng.choice(stats)
+    for r in rng.sample(recs, min(len(recs), rng.choice([1, 2, 3]))):
+        if d not in (r.get("merged") or {}):
+            r["badmerged"] = {d: rng.choice(BAD_MERGED)}
+
+
 def gen_cases(ctx, nms, nperm, big=0):
     rng = ctx.rng
     cases = corpus()
@@ -480,6 +550,8 @@ def gen_cases(ctx, nms, nperm, big=0):
         cfg = gen_config(rng)
         if fatal_expected(dict(cfg, recs=recs)) and rng.random() < 0.8:
             cfg["stats"] = []           # keep most of the wide multisets for the accounting
+        if i % 2 == 1 and rng.random() < 0.25:
+            bad_merged(rng, recs, cfg["stats"])
         g = []
         for p in range(nperm):
             rr = list(recs)
@@ -527,14 +599,14 @@ class TermPool:
         return IMPORTS + "\n".join(self.defs) + "\n"
 
 
-def correspond_sharded(ctx, label, items, build, shard):
+def correspond_sharded(ctx, label, items, build, shard, fn="mismatches"):
     """ctx.correspond on shards that each carry their own table of shared value / record definitions"""
     from concurrent.futures import ThreadPoolExecutor
 
     def job(k):
         pool = TermPool()
         terms = [build(c, o, pool) for c, o in items[k:k + shard]]
-        bad, err = ctx.correspond("%s_%d" % (label, k // shard), pool.preamble(), terms, shard=len(terms) + 1)
+        bad, err = ctx.correspond("%s_%d" % (label, k // shard), pool.preamble(), terms, shard=len(terms) + 1, fn=fn)
         return k, bad, err
     with ThreadPoolExecutor(14) as ex:
         res = list(ex.map(job, range(0, len(items), shard)))
@@ -564,9 +636,11 @@ def val_term(I, t, pool=None):
     return pool.name("V", term) if pool else term
 
 
-def rec_term(I, t, pool=None):
-    """model record from the typed view of a record (input echo `tin`, or a re-read chunk record)"""
-    ann = "[" + "; ".join("(%d, %s)" % (I("k:" + k), val_term(I, v, pool)) for k, v in sorted((t.get("attrs") or {}).items())) + "]"
+def rec_term(I, t, pool=None, drop=()):
+    """model record from the typed view of a record (input echo `tin`, or a re-read chunk record); drop: requested slots
+    (an attribute merged_<slot> that is not a map of numbers is overwritten by StatsOn: the record is a raw one)"""
+    ann = "[" + "; ".join("(%d, %s)" % (I("k:" + k), val_term(I, v, pool)) for k, v in sorted((t.get("attrs") or {}).items())
+                          if not (k.startswith("merged_") and k[7:] in drop)) + "]"
     mg = "[" + "; ".join("(%d, %s)" % (I("k:" + k), stat_term(lambda v: I("s:" + v), m)) for k, m in sorted((t.get("merged") or {}).items())) + "]"
     term = "mkrec %s (%d)%%Z %s %s" % (seq_term(t["seq"]), t["count"], ann, mg)
     return pool.name("R", "(" + term + ")") if pool else term
@@ -602,7 +676,7 @@ def case_term(case, o, pool):
     # on disk the dereplication works on the records as re-read from the chunk files (the model's rt is the identity on
     # them); that they are the records sent to the chunks is roundtrip_check's business
     src = o.get("reread") if case["disk"] and o.get("kind") == "ok" else o.get("tin")
-    recs = "[" + "; ".join(rec_term(I, t, pool) for t in src or []) + "]"
+    recs = "[" + "; ".join(rec_term(I, t, pool, drop=sk) for t in src or []) + "]"
     crash = o.get("kind") == "fatal"
     outs = "[" + ";\n   ".join(out_term(I, case, r, case["cats"], sk, ign) for r in (o.get("recs") or [])) + "]"
     return "mkcase %d %d %s %s %s %d %s\n  %s\n  %s %s\n  %s" % (
@@ -647,14 +721,16 @@ def demerge_keys(case):
 
 
 def expected_demerge(case):
-    """one record per value of merged_<k> with count = weight (SetCount: at least 1), attribute k = value, slot removed"""
+    """one record per value of merged_<k> with count = weight (SetCount: at least 1), attribute = value (the attribute the
+    slot is about: `key` for a slot key:weight), slot removed"""
     k, keys, out = case["dkey"], demerge_keys(case), []
+    attr = k.partition(":")[0]      # the slot merged_<key:weight> holds values of the attribute <key>
     for r in case["recs"]:
         attrs = {a: render(v) for a, v in (r.get("attrs") or {}).items()}
         mg = {kk: (r.get("merged") or {}).get(kk, {}) for kk in keys}
         if k in (r.get("merged") or {}):
             for v, w in r["merged"][k].items():
-                out.append(proj(r["seq"].lower(), (), max(w, 1), dict(mg, **{k: {}}), dict(attrs, **{k: render(v)})))
+                out.append(proj(r["seq"].lower(), (), max(w, 1), dict(mg, **{k: {}}), dict(attrs, **{attr: render(v)})))
         else:
             out.append(proj(r["seq"].lower(), (), rcount(r), mg, attrs))
     return sorted(out)
@@ -675,7 +751,7 @@ def demerge_term(case, o, pool):
     stats = nlist([I("k:" + c) for c in keys])
     recs = "[" + "; ".join(rec_term(I, t, pool) for t in o.get("tin") or []) + "]"
     outs = "[" + ";\n   ".join(out_term(I, dict(na="NA"), r, [], keys) for r in o["recs"]) + "]"
-    return "mkcase 1 1 [] [] %s %d false\n  %s\n  [] false\n  %s" % (stats, I("s:NA"), recs, outs)
+    return "mkcase 1 1 [] %s %s %d false\n  %s\n  [] false\n  %s" % (ds_term(I, [case["dkey"]]), stats, I("s:NA"), recs, outs)
 
 
 def demerge_check(ctx, broken, n):
@@ -711,7 +787,8 @@ def demerge_check(ctx, broken, n):
 
 # ----------------------------------------------------------------------------------------------- evaluation
 def to_vh(c, echo=True):
-    return dict({k: c[k] for k in ("recs", "disk", "chunks", "workers", "cats", "stats", "na", "nosingleton", "batch", "dbatch")}, echo=echo)
+    return dict({k: c[k] for k in ("recs", "disk", "chunks", "workers", "cats", "stats", "na", "nosingleton", "batch", "dbatch")}, echo=echo,
+                opthist=c.get("opthist", 0))
 
 
 def weak_projection(ps):
@@ -898,6 +975,8 @@ def fasta_of(recs):
             ann["count"] = r["count"]
         for k, m in (r.get("merged") or {}).items():
             ann["merged_" + k] = m
+        for k, v in (r.get("badmerged") or {}).items():
+            ann["merged_" + k] = v
         lines.append(">%s %s\n%s\n" % (r["id"], json.dumps(ann, ensure_ascii=False), r["seq"]))
     return "".join(lines)
 
@@ -922,6 +1001,9 @@ def cli_proj(recs, cats, stats, na, ign=()):
         ann = dict(r["ann"])
         count = ann.pop("count", 1)
         merged = {k: ann.pop("merged_" + k, {"<absent>": -1}) for k in set(stats)}
+        # (a singleton is written with the map it came with: a map of non-integral numbers — outside the quantifier —
+        #  is read as StatsOn reads it, through InterfaceToInt)
+        merged = {k: ({a: int(b) for a, b in m.items()} if numeric_map(m) else m) for k, m in merged.items()}
         ann = {k: render(v) for k, v in ann.items() if not k.startswith("merged_") and k != "definition"}
         cv = tuple(unrender(ann[c]) if c in ann else na for c in cats)
         ann = {k: v for k, v in ann.items() if k not in ign}
@@ -951,6 +1033,9 @@ def cli_one(ctx, bindir, case, name, report=True):
     #  would weigh by w instead of the count)
     demerge = len(case["stats"]) == 1 and ":" not in case["stats"][0] and not case["cats"] and not case["nosingleton"]
     k = case["stats"][0] if demerge else None
+    base = case["stats"][0].partition(":")[0] if case["stats"] else None
+    wdemerge = (len(case["stats"]) == 1 and ":" in case["stats"][0] and not case["cats"] and not case["nosingleton"]
+                and not any(base in eff_merged(r) or base in (r.get("badmerged") or {}) for r in case["recs"]))
     rc2 = rc3 = 0
     o2 = o3 = e2 = e3 = ""
     try:
@@ -972,12 +1057,34 @@ def cli_one(ctx, bindir, case, name, report=True):
         if report:
             ctx.violation(name + "_oracle", dict(property="C06", kind="cli-direct-oracle", case=rp, implementation=p1, expected=exp))
         return "obiuniq differs from the accounting: %s vs %s" % (p1, exp)
+    if wdemerge:
+        # obiuniq -m key:w | obidemerge -d key:w | obiuniq -m key : merged_key of the third pass = merged_key:w of the first
+        # (a weight < 1 comes back as 1: SetCount, outside the property); the count is the total of the map
+        try:
+            rc2, o2, e2 = run_cli(bindir, ["obidemerge", "-d", case["stats"][0]], o1)
+            a3 = [base if x == case["stats"][0] else x for x in args]
+            rc3, o3, e3 = run_cli(bindir, a3, o2) if rc2 == 0 else (0, "", "")
+        except subprocess.TimeoutExpired:
+            rc2, o2, e2, rc3, o3, e3 = 124, "", "timeout", 0, "", ""
+        if rc2 or rc3:
+            if report:
+                ctx.violation(name + "_exit", dict(property="C06", kind="cli-exit", case=rp, rc=[rc1, rc2, rc3], stderr=(e2 + e3)[-1500:]))
+            return "exit %s" % [rc1, rc2, rc3]
+        p3 = cli_proj(parse_fasta(o3), [], [base], case["na"])
+        want = sorted((x[0], sum(max(w, 1) for _, w in x[3][0][1]), ((base, tuple(sorted((v, max(w, 1)) for v, w in x[3][0][1]))),)) for x in p1 if x[3][0][1])
+        got3 = sorted((x[0], x[2], x[3]) for x in p3)
+        if got3 != want:
+            if report:
+                ctx.violation(name + "_wdemerge", dict(property="C06", kind="weighted-demerge-inverse", case=rp, uniq=p1, uniq_demerge_uniq=p3, expected=want, demerged=o2[-2000:]))
+            return "uniq -m k:w | demerge -d k:w | uniq -m k differs: %s vs %s" % (got3, want)
     if demerge:
         p3 = cli_proj(parse_fasta(o3), [], [k], case["na"])
         strip = lambda ps: sorted((p[0], p[2], p[3]) for p in ps)
         # counts after the round trip are the totals of the maps: identical when every input map sums to its record's count
         consistent = all(sum(m.values()) == rcount(r) for r in case["recs"] for kk, m in (r.get("merged") or {}).items() if kk == k)
-        a, b = strip(p3), strip(p1)
+        # (a class whose map is empty — inputs carrying an empty merged_<k> map, inconsistent with their count — demerges to
+        #  no record at all: C06_demerge_inverse_onto has the hypothesis m1 <> [])
+        a, b = strip(p3), [x for x in strip(p1) if x[2][0][1]]
         if not consistent:
             a, b = [(x[0], x[2]) for x in a], [(x[0], x[2]) for x in b]
         if a != b:
@@ -1024,7 +1131,7 @@ def cli_check(ctx, bindir, nms):
             r.pop("ccount", None)
             r["nf"] = True              # through the commands every number comes from the JSON header reader
         if i % 2 == 0:
-            cfg = dict(cats=[], stats=[rng.choice(KEYS)], na="NA", nosingleton=False)
+            cfg = dict(cats=[], stats=[rng.choice(KEYS) + (":wt" if i % 6 == 4 else "")], na="NA", nosingleton=False)
             ndem += 1
         else:
             cfg = gen_config(rng)
@@ -1037,6 +1144,675 @@ def cli_check(ctx, bindir, nms):
         nbad += bad is not None
         n += 1
     return n, ndem
+
+
+# ----------------------------------------------------------------------------------------------- CLI glue (round 3)
+def uniq_args(case):
+    args = ["obiuniq", "--chunk-count", str(case["chunks"]), "--max-cpu", str(case["workers"]), "--na-value", case["na"]]
+    for k in case["stats"]:
+        args += ["-m", k]
+    for k in case["cats"]:
+        args += ["-c", k]
+    if case["nosingleton"]:
+        args.append("--no-singleton")
+    if not case["disk"]:
+        args.append("--in-memory")
+    return args
+
+
+def fastq_of(recs):
+    out = []
+    for r in recs:
+        head, seq = fasta_of([r]).rstrip("\n").rsplit("\n", 1)
+        out.append("@" + head[1:] + "\n" + seq + "\n+\n" + "I" * len(seq) + "\n")
+    return "".join(out)
+
+
+VARIANTS = ["file", "files", "gz", "files-gz", "batch-size-1", "batch-size-3", "batch-size-1000", "no-order", "force-one-cpu", "max-cpu-1",
+            "out", "out-compress", "fastq", "fastq-files", "fasta-output", "chunk-count-0"]
+
+
+def cli_variant_one(bindir, case, variant, tmp, cut=None):
+    """obiuniq with the options of the case, the data reaching it / leaving it the way `variant` says (input as one file, as
+    several files, gzip-compressed, FASTQ; --batch-size, --no-order, --force-one-cpu, --max-cpu 1; output to a file, compressed):
+    the records it writes must be the accounting of the oracle whatever the way.  Returns None or what differs."""
+    import gzip
+    args = uniq_args(case)
+    recs = case["recs"]
+    text = fastq_of if variant.startswith("fastq") else fasta_of
+    ext = ".fastq" if variant.startswith("fastq") else ".fasta"
+    files, stdin = [], ""
+    if variant in ("files", "files-gz", "fastq-files") and len(recs) >= 2:
+        cut = cut or sorted({1 + (len(recs) - 1) * k // 3 for k in range(3)})
+        parts = [recs[a:b] for a, b in zip([0] + cut, cut + [len(recs)]) if recs[a:b]]
+    else:
+        parts = [recs]
+    if variant in ("file", "files", "gz", "files-gz", "fastq-files"):
+        for j, part in enumerate(parts):
+            fn = os.path.join(tmp, "in%d%s" % (j, ext))
+            data = text(part).encode()
+            if variant.endswith("gz"):
+                fn += ".gz"
+                data = gzip.compress(data)
+            open(fn, "wb").write(data)
+            files.append(fn)
+    else:
+        stdin = text(recs)
+    if variant.startswith("batch-size-"):
+        args += ["--batch-size", variant.rsplit("-", 1)[1]]
+    if variant == "no-order":
+        args.append("--no-order")
+    if variant == "force-one-cpu":
+        args.append("--force-one-cpu")
+    if variant == "max-cpu-1":
+        args[args.index("--max-cpu") + 1] = "1"
+    if variant == "fasta-output":
+        args.append("--fasta-output")
+    if variant.startswith("chunk-count-"):
+        args[args.index("--chunk-count") + 1] = "0"      # read as 1
+    outfn = None
+    if variant in ("out", "out-compress"):
+        outfn = os.path.join(tmp, "out.fasta" + (".gz" if variant == "out-compress" else ""))
+        if os.path.exists(outfn):
+            os.remove(outfn)
+        args += ["--out", outfn] + (["--compress"] if variant == "out-compress" else [])
+    try:
+        rc, out, err = run_cli(bindir, args + files, stdin)
+    except subprocess.TimeoutExpired:
+        rc, out, err = 124, "", "timeout"
+    if rc:
+        return "exit %d: %s" % (rc, err[-600:]), args
+    if outfn:
+        try:
+            raw = open(outfn, "rb").read()
+            out = (gzip.decompress(raw) if variant == "out-compress" else raw).decode("utf8", "replace")
+        except Exception as e:
+            return "output file: %r" % e, args
+    got = cli_proj(parse_fasta(out), case["cats"], case["stats"], case["na"], weight_attrs(case))
+    exp = expected(case)
+    if got != exp:
+        return dict(implementation=got, expected=exp), args
+    return None, args
+
+
+def cli_case(rng, i, big=False):
+    recs = gen_multiset(rng, big=big, wide=(i % 4 == 3))
+    for r in recs:
+        r.pop("qual", None)
+        r.pop("ccount", None)
+        r["nf"] = True              # through the commands every number comes from the JSON header reader
+    cfg = gen_config(rng)
+    cfg["na"] = cfg["na"] or "NA"
+    if fatal_expected(dict(cfg, recs=recs)) or mixed_type_cats(dict(cfg, recs=recs)):
+        cfg["stats"], cfg["cats"] = [], [c for c in cfg["cats"] if c not in mixed_type_cats(dict(cfg, recs=recs))]
+    if i % 3 == 1:
+        bad_merged(rng, recs, cfg["stats"])
+    return dict(cfg, recs=recs, disk=rng.random() < 0.5, chunks=rng.choice([1, 2, 7, 100]), workers=rng.randrange(1, 5))
+
+
+def cli_corpus():
+    a = [R("r%d" % i, "acgt" if i % 3 else "ttga", [0, 2, 1][i % 3], dict(sample="AB"[i % 2], wt=i % 4)) for i in range(1, 26)]
+    b = [R("s1", "a", 1, dict(tag="x")), R("s2", "c"), R("s3", "g", 2), R("s4", "t"), R("s5", "t"), R("s6", "aa", 1, dict(tag="x")),
+         R("s7", "aa", 1, dict(tag="y")), R("s8", "cc", 0, dict(tag="x", sample="A")), R("s9", "cc", 0, dict(tag="x", sample="B")), R("s10", "cc", 0, dict(tag="y"))]
+    for r in a + b:
+        r["nf"] = True
+    return [
+        # more than one batch of 10 (cmd/obitools/obiuniq sets the batch size to 10)
+        dict(C(a, stats=["sample"], chunks=3, workers=2), tag="25 records = 3 input batches"),
+        # -m k and -m k:w together (descriptors keyed by their full name)
+        dict(C(a, stats=["sample", "sample:wt"], cats=["sample"], chunks=7, workers=3), tag="-m k -m k:w"),
+        dict(C(a, stats=["sample:wt", "sample"], disk=True, chunks=1, workers=1), tag="-m k:w -m k, disk"),
+        # --no-singleton with -c: records alone in their batch before the last classification level
+        dict(C(b, cats=["tag"], nosingleton=True, chunks=1, workers=1), tag="--no-singleton -c"),
+        dict(C(b, cats=["tag", "sample"], stats=["tag"], nosingleton=True, disk=True, chunks=100, workers=4), tag="--no-singleton -c -c, disk"),
+    ]
+
+
+def cli_variants(ctx, bindir, n):
+    rng = ctx.rng
+    tally, nbad, nrun = {}, 0, 0
+    with tempfile.TemporaryDirectory(prefix="c06cli_") as tmp:
+        cases = [(c, VARIANTS if not ctx.quick else rng.sample(VARIANTS, 5)) for c in cli_corpus()]
+        cases += [(cli_case(rng, i, big=(i % 3 == 0)), rng.sample(VARIANTS, 3)) for i in range(n)]
+        for i, (case, vs) in enumerate(cases):
+            for v in vs:
+                bad, args = cli_variant_one(bindir, case, v, tmp)
+                nrun += 1
+                tally[v] = tally.get(v, 0) + 1
+                if bad:
+                    nbad += 1
+                    if nbad <= 2:
+                        ctx.violation("cli_variant_%d_%s" % (i, v), dict(property="C06", kind="cli-variant", variant=v, what=bad,
+                                                                         case=dict(case, args=args, variant=v)))
+    ctx.cov["cli_variants"] = dict(runs=nrun, failures=nbad, by_variant=tally,
+                                   records=tally_of([c for c, _ in cases], lambda c: min(len(c["recs"]) // 10 * 10, 100)))
+    return nrun
+
+
+def cli_glue(ctx, bindir):
+    """what the commands do around the dereplication: (1) the on-disk mode cannot create its temporary directory: obiuniq must
+    stop with an error and write no record (the in-memory mode does not need the directory and must work); (2) obidemerge
+    without -d hands every record over unchanged."""
+    res = {}
+    src = fasta_of([dict(R("r1", "acgt", 2, dict(sample="A")), nf=True), dict(R("r2", "acgt", 0, dict(sample="B")), nf=True), dict(R("r3", "tt"), nf=True)])
+    env = dict(os.environ, TMPDIR="/nonexistent/c06")
+    outs = {}
+    for mode in ("disk", "memory"):
+        try:
+            p = subprocess.run([os.path.join(bindir, "obiuniq"), "-m", "sample"] + (["--in-memory"] if mode == "memory" else []),
+                               input=src.encode(), capture_output=True, timeout=60, env=env)
+            outs[mode] = (p.returncode, p.stdout.decode("utf8", "replace"))
+        except subprocess.TimeoutExpired:
+            outs[mode] = (124, "")
+    exp = [proj("acgt", (), 3, {"sample": {"A": 2, "B": 1}}, {}), proj("tt", (), 1, {"sample": {"NA": 1}}, {})]
+    ok_disk = outs["disk"][0] not in (0, 124) and not parse_fasta(outs["disk"][1])
+    ok_mem = outs["memory"][0] == 0 and cli_proj(parse_fasta(outs["memory"][1]), [], ["sample"], "NA") == exp
+    res["no_temporary_directory"] = "refused on disk, works in memory" if ok_disk and ok_mem else "violation"
+    if not (ok_disk and ok_mem):
+        ctx.violation("cli_tmpdir", dict(property="C06", kind="cli-no-temporary-directory", input=src, env="TMPDIR=/nonexistent/c06",
+                                         implementation=dict(disk=outs["disk"], memory=outs["memory"]), expected="disk: exit != 0 and no record; memory: " + repr(exp),
+                                         case=dict(glue="tmpdir")))
+    recs = [plain(r) for r in gen_multiset(ctx.rng, wide=False)] + [R("z1", "acgt", 3, dict(sample="A"), dict(sample={"A": 2, "B": 1}))]
+    for r in recs:
+        r["nf"] = True
+    src = fasta_of(recs)
+    try:
+        rc, out, err = run_cli(bindir, ["obidemerge"], src)
+    except subprocess.TimeoutExpired:
+        rc, out, err = 124, "", "timeout"
+    norm = lambda txt: sorted((r["id"], r["seq"].lower(), json.dumps({k: v for k, v in r["ann"].items() if k != "definition" or v}, sort_keys=True)) for r in parse_fasta(txt))
+    same = rc == 0 and norm(out) == norm(src)
+    res["demerge_without_slot"] = "identity" if same else "violation"
+    if not same:
+        ctx.violation("cli_demerge_noslot", dict(property="C06", kind="cli-demerge-without-slot", input=src, rc=rc, implementation=norm(out), expected=norm(src),
+                                                 case=dict(glue="demerge-noslot")))
+    ctx.cov["cli_glue"] = res
+    return 3
+
+
+# ----------------------------------------------------------------------------------------------- round 3: the pieces one by one
+def plain(r):
+    r = dict(r)
+    r.pop("qual", None)
+    r.pop("ccount", None)
+    return r
+
+
+def class_value(kind, key, na, r):
+    """what the classifier reads from a record: fmt.Sprint of the attribute (NA when absent) / the nucleotides"""
+    if kind == "annotation":
+        a = r.get("attrs") or {}
+        return sprint(a[key]) if key in a else na
+    if kind == "dual":
+        # the JSON text of the pair (value of key, value of key2 or "" without a second key); a record without any
+        # annotation gets (NA, "") whatever key2 — the classifier of obidistribute, driven for its table only
+        a = r.get("attrs") or {}
+        k1, k2 = key
+        has = bool(a) or r.get("count", 0) > 0 or bool(r.get("merged")) or bool(r.get("badmerged"))
+        v1 = sprint(a[k1]) if k1 in a else na
+        v2 = "" if not k2 or not has else (sprint(a[k2]) if k2 in a else na)
+        return json.dumps([v1, v2], separators=(",", ":"), ensure_ascii=False)
+    return r["seq"].lower()
+
+
+def ckey_of(c):
+    return (c["ckey"], c.get("ckey2", "")) if c["ckind"] == "dual" else c["ckey"]
+
+
+CLASSIFIER_TYPE = dict(annotation="AnnotationClassifier", sequence="SequenceClassifier", hash="HashClassifier", dual="DualAnnotationClassifier")
+
+
+def gen_classifier_case(rng, wide):
+    recs = [plain(r) for r in gen_multiset(rng, wide=wide)] or [R("r1", "acgt")]
+    c = dict(op="classifier", ckind=rng.choice(["annotation", "annotation", "sequence", "hash", "dual"]), ckey=rng.choice(KEYS + ["nokey"]),
+             ckey2=rng.choice(KEYS + ["nokey", ""]), csize=rng.choice([1, 2, 7, 100]), na=rng.choice(["NA", "A", "", "1"]), recs=recs)
+    hist, live = [], []
+    for _ in range(rng.choice([3, 8, 20, 40])):
+        x = rng.random()
+        if x < 0.6:
+            hist.append(dict(op="code", i=rng.randrange(len(recs))))
+            live.append(len(hist) - 1)
+        elif x < 0.82:
+            if live:
+                hist.append(dict(op="value", of=rng.choice(live)))
+        elif x < 0.85:
+            hist.append(dict(op="badvalue", of=len(hist)))      # Value() of a code that was never issued
+        elif x < 0.95:
+            hist.append(dict(op="reset"))
+            live = []
+        else:
+            hist.append(dict(op="clone"))
+            live = []
+    c["hist"] = hist
+    return c
+
+
+def classifier_corpus():
+    recs = [R("r1", "acgt", 0, dict(sample="A")), R("r2", "acgt", 0, dict(sample="B")), R("r3", "ttt"), R("r4", "TTT", 0, dict(sample=1))]
+    H = lambda *ops: [dict(op=o) if isinstance(o, str) else dict(op="code", i=o) if o >= 0 else dict(op="value", of=-o - 1) for o in ops]
+    cs = []
+    for kind in ("annotation", "sequence", "hash", "dual"):
+        base = dict(op="classifier", ckind=kind, ckey="sample", ckey2="tag", csize=7, na="NA", recs=recs)
+        # a value decoded after a Reset (codes must restart / stay decodable), after a Clone, twice the same record
+        cs.append(dict(base, hist=H(0, 1, 0, -2, "reset", 2, -6, 3, -8, "clone", 3, -11)))
+        cs.append(dict(base, hist=H(0, "reset", 0, -3, "reset", "reset", 1, 0, -8, -7)))
+        cs.append(dict(base, hist=H(0, 1, 2, 3, -1, -2, -3, -4) + [dict(op="badvalue", of=8), dict(op="value", of=0)]))
+    return cs
+
+
+def classifier_judge(c, o):
+    """the contract of a classifier object: since its last Reset (or Clone) two records get the same code iff they have
+    the same class value, and Value(code) is that value.  Returns (what is wrong or None, per-step observation with the
+    codes replaced by their rank of first appearance since the last Reset / Clone, per-step expectation)."""
+    kind, steps = c["ckind"], o.get("steps") or []
+    exp, canon, table, rank, vals = [], [], [], {}, []
+    wrong = None
+    if o.get("kind") != "ok" or len(steps) != len(c["hist"]):
+        return "the harness reports %s" % o.get("kind"), [], []
+    if o.get("err") != CLASSIFIER_TYPE[kind]:
+        wrong = "Type is %r" % o.get("err")
+    fn = {}
+    for n, (st, so) in enumerate(zip(c["hist"], steps)):
+        if st["op"] == "badvalue":
+            # a code that was never issued is refused (log.Fatalf) by the table classifiers; HashClassifier prints any number
+            e = ("value", str(1000000 + st["of"])) if kind == "hash" else ("refused", None)
+            g = ("refused", None) if so.get("kind") in ("fatal", "panic") else ("value", so.get("value"))
+            exp.append(e)
+            canon.append(g)
+            vals.append(None)
+            if e != g:
+                wrong = wrong or "step %d: Value of a code never issued gives %r (%s)" % (n, so.get("value"), so.get("kind"))
+            continue
+        if so.get("kind") != "ok":
+            wrong = wrong or "step %d (%s) ends in %s: %s" % (n, st["op"], so.get("kind"), so.get("err", ""))
+        if st["op"] == "code":
+            v = class_value(kind, ckey_of(c), c["na"], c["recs"][st["i"]])
+            if v not in table:
+                table.append(v)
+            exp.append(("code", table.index(v)))
+            vals.append(v)
+            k = so.get("code")
+            if k not in rank:
+                rank[k] = len(rank)
+            canon.append(("code", rank[k] if k is not None else None))
+            if kind == "hash":
+                # any function of the nucleotides into 0..size-1; the value of a code is its decimal form
+                if k is None or not (0 <= k < c["csize"]) or fn.setdefault(v, k) != k:
+                    wrong = wrong or "step %d: code %r for %r (size %d, earlier code %r)" % (n, k, v, c["csize"], fn.get(v))
+                vals[-1] = str(k)
+            elif canon[-1] != exp[-1]:
+                wrong = wrong or "step %d: the codes since the last reset do not separate the values as they should (rank %r, expected %r)" % (n, canon[-1][1], exp[-1][1])
+        elif st["op"] == "value":
+            exp.append(("value", vals[st["of"]]))
+            vals.append(None)
+            canon.append(("value", so.get("value")))
+            if canon[-1] != exp[-1]:
+                wrong = wrong or "step %d: Value(code of step %d) = %r, expected %r" % (n, st["of"], so.get("value"), exp[-1][1])
+        else:
+            table, rank = [], {}
+            exp.append(None)
+            vals.append(None)
+            canon.append(None)
+    return wrong, canon, exp
+
+
+def classifier_term(c, canon, pool):
+    I = pool.I
+    steps, obs = [], []
+    for st, co in zip(c["hist"], canon):
+        if st["op"] == "code":
+            steps.append("SCode [%d]" % I("s:" + class_value(c["ckind"], ckey_of(c), c["na"], c["recs"][st["i"]])))
+            obs.append("OCode %d" % (co[1] if co and co[1] is not None else 999))
+        elif st["op"] in ("value", "badvalue"):
+            steps.append("SValue %d" % st["of"])        # (badvalue: `of` is the step itself, which issued no code)
+            obs.append("OVal (Some [%d])" % I("s:" + co[1]) if co and co[1] is not None else "OVal None")
+        else:
+            steps.append("SReset")
+            obs.append("ONone")
+    return "([%s], [%s])" % ("; ".join(steps), "; ".join(obs))
+
+
+def gen_subchunk_case(rng, wide):
+    recs = [plain(r) for r in gen_multiset(rng, big=rng.random() < 0.3, wide=wide)]
+    idx = list(range(len(recs)))
+    rng.shuffle(idx)
+    batches = []
+    while idx:
+        n = rng.choice([0, 1, 1, 2, 3, 5, 8, 13, 30])
+        batches.append(idx[:n])
+        idx = idx[n:]
+    if rng.random() < 0.3:
+        batches.append([])
+    return dict(op="subchunk", ckind=rng.choice(["annotation", "annotation", "sequence"]), ckey=rng.choice(KEYS + ["nokey"]),
+                na=rng.choice(["NA", "A", "", "1"]), nworkers=rng.choice([0, 1, 1, 2, 3]), recs=recs, batches=batches)
+
+
+def subchunk_expected(c):
+    """a batch of 0 or 1 record is forwarded, a larger one is cut into its classes (one output batch per class)"""
+    out = []
+    for b in c["batches"]:
+        if len(b) <= 1:
+            out += [tuple(b)] if b else []
+            continue
+        cl = {}
+        for i in b:
+            cl.setdefault(class_value(c["ckind"], c["ckey"], c["na"], c["recs"][i]), []).append(i)
+        out += [tuple(sorted(m)) for m in cl.values()]
+    return sorted(out)
+
+
+def subchunk_observed(c, o):
+    ids = {r["id"]: i for i, r in enumerate(c["recs"])}
+    return sorted(tuple(sorted(ids.get(x, -1) for x in b)) for b in o.get("obatches") or [] if b)
+
+
+def subchunk_term(c, o, pool):
+    I = pool.I
+    ins = "[" + "; ".join("[" + "; ".join("(%d, [%d])" % (i + 1, I("s:" + class_value(c["ckind"], c["ckey"], c["na"], c["recs"][i]))) for i in b) + "]"
+                          for b in c["batches"]) + "]"
+    outs = "[" + "; ".join(nlist([i + 1 for i in b]) for b in subchunk_observed(c, o)) + "]"
+    return "(%s, %s)" % (ins, outs)
+
+
+def gen_distribute_case(rng, wide):
+    c = gen_subchunk_case(rng, wide)
+    c.pop("nworkers")
+    return dict(c, op="distribute", ckind=rng.choice(["annotation", "sequence", "hash"]), csize=rng.choice([1, 2, 7, 100]), size=rng.choice([0, 0, 1, 2, 3, 10]))
+
+
+def distribute_judge(c, o):
+    """IBioSequence.Distribute: one output per class of the classifier, holding exactly the records of that class (for
+    HashClassifier: any function of the nucleotides into 0..size-1), and Value(code) names the class"""
+    if o.get("kind") != "ok":
+        return "the harness reports %s %s" % (o.get("kind"), o.get("err", ""))
+    ids = {r["id"]: i for i, r in enumerate(c["recs"])}
+    outs = [[ids.get(x, -1) for x in b] for b in o.get("obatches") or []]
+    allin = sorted(i for b in c["batches"] for i in b)
+    if sorted(i for b in outs for i in b) != allin:
+        return "records lost or duplicated"
+    val = lambda i: class_value(c["ckind"], c["ckey"], c["na"], c["recs"][i])
+    keys = o.get("keys") or []
+    for b, k in zip(outs, keys):
+        if not b:
+            return "an empty output"
+        if len({val(i) for i in b}) != 1 and c["ckind"] != "hash":
+            return "an output mixes two classes"
+        if c["ckind"] == "hash":
+            if not (k.isdigit() and 0 <= int(k) < c["csize"]):
+                return "hash class %r out of range" % k
+        elif k != val(b[0]):
+            return "Value(code) = %r for the class %r" % (k, val(b[0]))
+    where = {}
+    for n, b in enumerate(outs):
+        for i in b:
+            if where.setdefault(val(i), n) != n:
+                return "one class spread over two outputs"
+    if len(set(keys)) != len(keys):
+        return "two outputs with the same class"
+    return None
+
+
+def distribute_term(c, o, pool):
+    flat = dict(c, batches=[[i for b in c["batches"] for i in b]])
+    return subchunk_term(flat, o, pool)
+
+
+def gen_mergepipe_case(rng, wide):
+    """every incoming batch is one class of (sequence, categories): what IUniqueSequence hands over"""
+    while True:
+        recs = [plain(r) for r in gen_multiset(rng, wide=wide)]
+        cfg = dict(gen_config(rng), nosingleton=False)
+        case = dict(cfg, recs=recs, disk=False)
+        if not (fatal_expected(case) or nonpositive(case) or mixed_type_cats(case) or mixed_numbers(case)):
+            break
+    ids = {r["id"]: i for i, r in enumerate(recs)}
+    batches = [[ids[r["id"]] for r in m] for m in classes_of(case).values()]
+    rng.shuffle(batches)
+    return dict(case, op="mergepipe", batches=batches, size=rng.choice([0, 0, 1, 2, 3, 100]), echo=True)
+
+
+def mergepipe_term(c, o, pool):
+    I = pool.I
+    sk = sorted(set(c["stats"]))
+    ign = sorted(weight_attrs(c))
+    tin = o.get("tin") or []
+    bs = "[" + ";\n   ".join("[" + "; ".join(rec_term(I, tin[i], pool, drop=sk) for i in b) + "]" for b in c["batches"]) + "]"
+    outs = "[" + ";\n   ".join(out_term(I, c, r, [], sk, ign) for r in (o.get("recs") or [])) + "]"
+    return "mkmp %s %s %d\n  %s\n  %s\n  %s" % (ds_term(I, c["stats"]), nlist([I("k:" + k) for k in sk]), I("s:" + c["na"]), bs,
+                                               nlist([I("k:" + k) for k in ign]), outs)
+
+
+def gen_merge2_case(rng, wide):
+    """BioSequence.Merge on two records of one sequence, in place or on a copy; the receiver may carry qualities; either
+    may carry a merged_<slot> attribute of the wrong shape (a map with a non-numeric weight must be refused: log.Panicf)"""
+    while True:
+        recs = [plain(r) for r in gen_multiset(rng, wide=wide)]
+        if len(recs) >= 2:
+            break
+    a, b = rng.sample(recs, 2)
+    b = dict(b, seq=a["seq"])
+    if rng.random() < 0.4:
+        a = dict(a, qual="I" * len(a["seq"]))
+    cfg = gen_config(rng)
+    case = dict(op="merge2", cats=[], stats=cfg["stats"], na=cfg["na"], nosingleton=False, disk=False, chunks=1, recs=[a, b],
+                inplace=rng.random() < 0.5, echo=True)
+    if case["stats"] and rng.random() < 0.3:
+        bad_merged(rng, case["recs"], case["stats"])
+    if case["stats"] and rng.random() < 0.08:
+        rng.choice(case["recs"])["badmerged"] = {rng.choice(case["stats"]): {"A": "x", "B": 1}}
+    return case
+
+
+def refused_map(c):
+    return any(isinstance(v, dict) and not numeric_map(v) and k in c["stats"] for r in c["recs"] for k, v in (r.get("badmerged") or {}).items())
+
+
+OPT_DEFAULT = dict(cats=[], na="NA", chunks=100, disk=False, nosingleton=False, stats=[])
+
+
+def gen_options_case(rng):
+    opts = []
+    for _ in range(rng.choice([0, 1, 3, 6, 12])):
+        op = rng.choice(["disk", "memory", "cat", "na", "stat", "chunks", "workers", "batchsize", "nosingleton", "withsingleton"])
+        o = dict(op=op)
+        if op in ("cat", "stat"):
+            o["keys"] = [rng.choice(KEYS) + (rng.choice(["", "", ":wt"]) if op == "stat" else "") for _ in range(rng.choice([0, 1, 2]))]
+        elif op == "na":
+            o["s"] = rng.choice(["NA", "none", ""])
+        elif op in ("chunks", "workers", "batchsize"):
+            o["n"] = rng.choice([1, 2, 7, 100])
+        opts.append(o)
+    return dict(op="options", opts=opts)
+
+
+def options_expected(c):
+    e = dict(OPT_DEFAULT, cats=[], stats={})
+    for o in c["opts"]:
+        op = o["op"]
+        if op in ("disk", "memory"):
+            e["disk"] = op == "disk"
+        elif op in ("nosingleton", "withsingleton"):
+            e["nosingleton"] = op == "nosingleton"
+        elif op == "cat":
+            e["cats"] = e["cats"] + o.get("keys", [])
+        elif op == "stat":
+            for k in o.get("keys", []):
+                e["stats"][k] = [k, k, k.partition(":")[0]]
+        elif op == "na":
+            e["na"] = o["s"]
+        else:
+            e[op] = o["n"]
+    e["stats"] = [e["stats"][k] for k in sorted(e["stats"])]
+    e["pops"] = e["cats"] + [""]
+    e["cats_after_pops"] = []
+    return e
+
+
+def pieces_run(ctx, cases):
+    obs = ctx.vh_robust("c06", cases, timeout=600, one_timeout=30)
+    for i, o in enumerate(obs):
+        if o.get("kind") in ("timeout", "crash"):
+            # a loaded machine must not raise an alarm: the case is run again alone with a longer deadline
+            obs[i] = ctx.vh_robust("c06", [cases[i]], timeout=90, one_timeout=90)[0]
+    return obs
+
+
+def pieces_check(ctx, broken, n):
+    """classifier objects, ISequenceSubChunk, MergePipe, BioSequence.Merge and the option setters, each driven alone, judged
+    by a direct oracle and compared with the model"""
+    rng = ctx.rng
+    st = ctx.cov.setdefault("pieces", {})
+    # ---- classifiers
+    cases = classifier_corpus() + [gen_classifier_case(rng, i % 2 == 1) for i in range(n)]
+    obs = pieces_run(ctx, cases)
+    items, nv = [], 0
+    for i, (c, o) in enumerate(zip(cases, obs)):
+        wrong, canon, exp = classifier_judge(c, o)
+        if wrong:
+            nv += 1
+            if nv <= 2:
+                ctx.violation("classifier_%d" % i, dict(property="C06", kind="classifier-contract", what=wrong, case=c, implementation=o.get("steps") or o, expected=exp))
+        if canon and c["ckind"] != "hash":
+            items.append((i, (c, canon)))
+    bad, err = correspond_sharded(ctx, "classifier", [t for _, t in items], lambda c, canon, pool: classifier_term(c, canon, pool), 60, fn="mismatches_cls")
+    pieces_corr(ctx, broken, "classifier", bad, err, nv, items, cases, obs)
+    st["classifier"] = dict(histories=len(cases), steps=sum(len(c["hist"]) for c in cases), kinds=tally_of(cases, lambda c: c["ckind"]),
+                            with_value_after_reset=sum(1 for c in cases if value_after_reset(c)), model_evaluated=len(items), failures=nv)
+    # ---- ISequenceSubChunk
+    cases = [gen_subchunk_case(rng, i % 2 == 1) for i in range(n)]
+    obs = pieces_run(ctx, cases)
+    items, nv = [], 0
+    for i, (c, o) in enumerate(zip(cases, obs)):
+        got, exp = subchunk_observed(c, o), subchunk_expected(c)
+        if o.get("kind") != "ok" or got != exp:
+            nv += 1
+            if nv <= 2:
+                ctx.violation("subchunk_%d" % i, dict(property="C06", kind="subchunk-classes", case=c, implementation=got if o.get("kind") == "ok" else o, expected=exp))
+        if o.get("kind") == "ok":
+            items.append((i, (c, o)))
+    bad, err = correspond_sharded(ctx, "subchunk", [t for _, t in items], subchunk_term, 40, fn="mismatches_sub")
+    pieces_corr(ctx, broken, "subchunk", bad, err, nv, items, cases, obs)
+    st["subchunk"] = dict(cases=len(cases), workers=tally_of(cases, lambda c: c["nworkers"]), batches=sum(len(c["batches"]) for c in cases),
+                          batches_split=sum(1 for c in cases for b in c["batches"] if len(b) > 1), model_evaluated=len(items), failures=nv)
+    # ---- IBioSequence.Distribute
+    cases = [gen_distribute_case(rng, i % 2 == 1) for i in range(n)]
+    obs = pieces_run(ctx, cases)
+    items, nv = [], 0
+    for i, (c, o) in enumerate(zip(cases, obs)):
+        wrong = distribute_judge(c, o)
+        if wrong:
+            nv += 1
+            if nv <= 2:
+                ctx.violation("distribute_%d" % i, dict(property="C06", kind="distribute-classes", what=wrong, case=c, implementation=o))
+        if o.get("kind") == "ok" and c["ckind"] != "hash":
+            items.append((i, (c, o)))
+    bad, err = correspond_sharded(ctx, "distribute", [t for _, t in items], distribute_term, 40, fn="mismatches_sub")
+    pieces_corr(ctx, broken, "distribute", bad, err, nv, items, cases, obs)
+    st["distribute"] = dict(cases=len(cases), sizes=tally_of(cases, lambda c: c["size"]), kinds=tally_of(cases, lambda c: c["ckind"]),
+                            model_evaluated=len(items), failures=nv)
+    # ---- MergePipe / IMergeSequenceBatch
+    cases = [gen_mergepipe_case(rng, i % 2 == 1) for i in range(n)]
+    obs = pieces_run(ctx, cases)
+    items, nv = [], 0
+    for i, (c, o) in enumerate(zip(cases, obs)):
+        exp = expected(c)
+        got = observed(c, o) if o.get("kind") == "ok" else o
+        size = c["size"] or 100
+        shape = o.get("kind") == "ok" and all(0 < len(b) <= size for b in o.get("obatches") or [])
+        if got != exp or not shape:
+            nv += 1
+            if nv <= 2:
+                ctx.violation("mergepipe_%d" % i, dict(property="C06", kind="mergepipe", case=c, implementation=got, expected=exp,
+                                                       output_batches=o.get("obatches"), batch_size=size))
+        if o.get("kind") == "ok":
+            items.append((i, (c, o)))
+    bad, err = correspond_sharded(ctx, "mergepipe", [t for _, t in items], mergepipe_term, 40, fn="mismatches_mp")
+    pieces_corr(ctx, broken, "mergepipe", bad, err, nv, items, cases, obs)
+    st["mergepipe"] = dict(cases=len(cases), sizes=tally_of(cases, lambda c: c["size"]), classes=sum(len(c["batches"]) for c in cases),
+                           model_evaluated=len(items), failures=nv)
+    # ---- BioSequence.Merge, in place and on a copy
+    cases = [gen_merge2_case(rng, i % 2 == 1) for i in range(n)]
+    obs = pieces_run(ctx, cases)
+    items, nv, nref = [], 0, 0
+    for i, (c, o) in enumerate(zip(cases, obs)):
+        wrong = None
+        if refused_map(c):
+            nref += 1
+            # (with a non-categorical value in another slot as well, the range over the Go map statsOn decides which stops first)
+            if o.get("kind") != "panic" and not (fatal_expected(c) and o.get("kind") == "fatal"):
+                wrong = "a merged_<slot> map with a non-numeric weight is not refused"
+        elif fatal_expected(c):
+            if o.get("kind") != "fatal":
+                wrong = "statistics on a non-categorical value accepted"
+            else:
+                items.append((i, (c, o)))
+        elif o.get("kind") != "ok":
+            wrong = "the harness reports %s" % o.get("kind")
+        else:
+            items.append((i, (c, o)))
+            # (an attribute used as a weight is rewritten by GetIntAttribute, float64 -> int: not part of the claim)
+            wa = weight_attrs(c)
+            unw = lambda t: dict(t, attrs={k: v for k, v in t["attrs"].items() if k not in wa})
+            tin, after = [unw(t) for t in o.get("tin") or []], [unw(t) for t in o.get("after") or []]
+            if not nonpositive(c) and not mixed_numbers(c) and observed(c, o) != expected(c):
+                wrong = "the merged record is not the accounting of the two records"
+            elif bool(o.get("same")) != c["inplace"]:
+                wrong = "inplace=%s but the result %s the receiver" % (c["inplace"], "is" if o.get("same") else "is not")
+            elif not c["inplace"] and after[0] != tin[0]:
+                wrong = "inplace=false modified the receiver"
+            elif not any(r.get("badmerged") for r in c["recs"]) and after[1] != tin[1]:
+                wrong = "the merged-in record was modified"
+            elif o["recs"][0].get("qual"):
+                wrong = "the merged record keeps qualities"
+        if wrong:
+            nv += 1
+            if nv <= 2:
+                ctx.violation("merge2_%d" % i, dict(property="C06", kind="merge-two-records", what=wrong, case=c, implementation=o,
+                                                    expected=None if refused_map(c) or fatal_expected(c) else expected(c)))
+    bad, err = correspond_sharded(ctx, "merge2", [t for _, t in items], case_term, 40)
+    pieces_corr(ctx, broken, "merge2", bad, err, nv, items, cases, obs)
+    st["merge2"] = dict(cases=len(cases), on_a_copy=sum(1 for c in cases if not c["inplace"]), receiver_with_qualities=sum(1 for c in cases if c["recs"][0].get("qual")),
+                        merged_slot_of_wrong_shape=sum(1 for c in cases if any(r.get("badmerged") for r in c["recs"])), refused_maps=nref,
+                        model_evaluated=len(items), failures=nv)
+    # ---- option setters / accessors
+    cases = [gen_options_case(rng) for i in range(n)]
+    obs = pieces_run(ctx, cases)
+    nv = 0
+    for i, (c, o) in enumerate(zip(cases, obs)):
+        exp = options_expected(c)
+        got = {k: v for k, v in (o.get("get") or {}).items() if k in exp}
+        if o.get("kind") != "ok" or got != exp:
+            nv += 1
+            if nv <= 2:
+                ctx.violation("options_%d" % i, dict(property="C06", kind="option-accessors", case=c, implementation=o.get("get") or o, expected=exp))
+    st["options"] = dict(histories=len(cases), failures=nv)
+    return 6 * n
+
+
+def value_after_reset(c):
+    seen = False
+    for s in c["hist"]:
+        if s["op"] in ("reset", "clone"):
+            seen = True
+        elif s["op"] == "value" and seen:
+            return True
+    return False
+
+
+def tally_of(cases, f):
+    d = {}
+    for c in cases:
+        d[str(f(c))] = d.get(str(f(c)), 0) + 1
+    return d
+
+
+def pieces_corr(ctx, broken, what, bad, err, nviol, items, cases, obs):
+    ctx.cov.setdefault("pieces_model_vs_impl_mismatches", {})[what] = len(bad or [])
+    if bad is None:
+        broken.append(dict(kind="correspondence", detail=err))
+    elif bad and not nviol and not ctx.violations:
+        i = items[bad[0]][0]
+        broken.append(dict(kind="correspondence", name="corr:C06/" + what, first_diverging_case=cases[i], implementation=obs[i], n_diverging=len(bad)))
 
 
 # ----------------------------------------------------------------------------------------------- entry points
@@ -1072,9 +1848,13 @@ def run(ctx, broken):
         ctx.cov["cli_mixed_header_formats_memory_vs_disk"] = cli_mixed_headers(ctx, bindir)
         ncli, ndem = cli_check(ctx, bindir, 24 if ctx.quick else 400)
         ctx.cov["cli_cases"] = dict(obiuniq_vs_oracle=ncli, uniq_demerge_uniq=ndem)
+        ncli += cli_variants(ctx, bindir, 12 if ctx.quick else 300) + cli_glue(ctx, bindir)
     timing["cli"] = round(time.time() - t0 - timing["main"], 1)
     ndw = demerge_check(ctx, broken, 60 if ctx.quick else 2000)
     timing["demerge"] = round(time.time() - t0 - timing["main"] - timing["cli"], 1)
+    tp = time.time()
+    npieces = pieces_check(ctx, broken, 60 if ctx.quick else 1500)
+    timing["pieces"] = round(time.time() - tp, 1)
     nstress, nbad = disk_stress(ctx, 24 if ctx.quick else 48, 25 if ctx.quick else 120)
     # the same defect made deterministic: every chunk file is completed 5-20 ms late (verif hooks in both writers a chunk
     # file can go through), one process at a time, so that a reader that does not wait sees incomplete files whatever the load
@@ -1082,11 +1862,11 @@ def run(ctx, broken):
     for c in dcases:
         c["wdelay"] = ctx.rng.choice([5, 20])
     ndet, nbad_det = disk_stress(ctx, 1 if ctx.quick else 4, 0, cases=dcases, name="disk_delay")
-    timing["disk_stress"] = round(time.time() - t0 - timing["main"] - timing["cli"] - timing["demerge"], 1)
+    timing["disk_stress"] = round(time.time() - t0 - timing["main"] - timing["cli"] - timing["demerge"] - timing["pieces"], 1)
     ctx.cov["disk_stress"] = dict(runs=nstress, failures=nbad, what="large on-disk cases run in many concurrent harness processes (writer goroutines preempted)",
                                   delayed_completion_runs=ndet, delayed_completion_failures=nbad_det,
                                   delayed_completion="the same kind of cases, one process, every chunk file flushed/closed 5 or 20 ms late (verif hooks)")
-    ctx.cov["evaluations"] = len(cases) + len(rcs) + ncli + ndw + nstress + ndet
+    ctx.cov["evaluations"] = len(cases) + len(rcs) + ncli + ndw + nstress + ndet + npieces
     ctx.cov["distinct_nontrivial"] = len({json.dumps(to_vh(c), sort_keys=True) for c in cases if nontrivial(c)})
     ctx.cov["rule"] = ("multisets of 0..21 (big: 40..150) records over 1..12 (big: 8..40) distinct sequences, counts absent/1/2..1000, 4 attributes "
                        "(string/int/bool, present with p in {0,.5,.8,1}), already merged maps in 3 Go map types; each multiset in %d arrival orders "
@@ -1104,7 +1884,16 @@ def run(ctx, broken):
                                    with_qualities=sum(1 for c in cases if any(r.get("qual") for r in c["recs"])),
                                    permutation_groups=len(groups), permutation_groups_with_equal_output=ngroups_equal,
                                    already_merged_inputs=sum(1 for c in cases if any(r.get("merged") for r in c["recs"])),
-                                   cli_uniq_demerge_uniq=ncli)
+                                   cli_uniq_demerge_uniq=ncli,
+                                   option_histories=sum(1 for c in cases if c.get("opthist")),
+                                   merged_slot_of_wrong_shape=sum(1 for c in cases if any(r.get("badmerged") for r in c["recs"])),
+                                   longest_sequence=tally(lambda c: max([len(r["seq"]) for r in c["recs"]] + [0]) // 60 * 60),
+                                   iupac_sequences=sum(1 for c in cases if any(set(r["seq"].lower()) - set("acgt") for r in c["recs"])),
+                                   values_with_json_special_characters=sum(1 for c in cases if any(isinstance(v, str) and set(v) & set('"\\\t{;') for r in c["recs"] for v in (r.get("attrs") or {}).values())),
+                                   category_given_twice=sum(1 for c in cases if len(set(c["cats"])) < len(c["cats"])),
+                                   merge_attribute_given_twice=sum(1 for c in cases if len(set(c["stats"])) < len(c["stats"])),
+                                   key_with_and_without_weight=sum(1 for c in cases if len({d.partition(":")[0] for d in c["stats"]}) < len(set(c["stats"]))),
+                                   nosingleton_with_categories=sum(1 for c in cases if c["nosingleton"] and c["cats"]))
     ctx.samples = [dict(case=to_vh(cases[i]), implementation=projs[i]) for i in (0, 1, len(cases) // 2, len(cases) - 1)]
     ctx.cov["model_vs_impl_mismatches"] = len(mism)
     if mism:
@@ -1132,6 +1921,42 @@ def replay(ctx, rp):
         n, nbad = disk_stress(ctx, rp["stress"]["processes"], 0, cases=[dict(C([]), **c)] * 20, report=False)
         print("replay (on-disk mode, %d concurrent processes x 20 runs of the case, chunk files completed %d ms late): %d of %d runs lose records or crash"
               % (rp["stress"]["processes"], c.get("wdelay", 0), nbad, n))
+        return
+    if c.get("glue"):
+        bindir, err = ctx.build_cmds(["obiuniq", "obidemerge"])
+        cli_glue(ctx, bindir)
+        print("replay (commands: TMPDIR that does not exist; obidemerge without -d):", ctx.cov.get("cli_glue"))
+        return
+    if "variant" in c:
+        bindir, err = ctx.build_cmds(["obiuniq", "obidemerge"])
+        with tempfile.TemporaryDirectory(prefix="c06cli_") as tmp:
+            bad, args = cli_variant_one(bindir, c, c["variant"], tmp)
+        print("replay (CLI case, variant %s):" % c["variant"], " ".join(args), "<<EOF\n" + fasta_of(c["recs"]) + "EOF")
+        print(" result:", bad or "agrees with the oracle")
+        return
+    if c.get("op") == "distribute":
+        o = ctx.vh_robust("c06", [c])[0]
+        print("replay (distribute):", json.dumps(c)[:2000])
+        print(" implementation:", o)
+        print(" verdict       :", distribute_judge(c, o) or "one output per class")
+        return
+    if c.get("op") in ("classifier", "subchunk", "mergepipe", "merge2", "options"):
+        o = ctx.vh_robust("c06", [c])[0]
+        print("replay (%s):" % c["op"], json.dumps(c)[:2000])
+        if c["op"] == "classifier":
+            wrong, canon, exp = classifier_judge(c, o)
+            print(" implementation:", o.get("steps") or o)
+            print(" expected      :", exp)
+            print(" verdict       :", wrong or "contract respected")
+        elif c["op"] == "subchunk":
+            print(" implementation:", subchunk_observed(c, o) if o.get("kind") == "ok" else o)
+            print(" expected      :", subchunk_expected(c))
+        elif c["op"] == "options":
+            print(" implementation:", o.get("get") or o)
+            print(" expected      :", options_expected(c))
+        else:
+            print(" implementation:", observed(c, o) if o.get("kind") == "ok" else o, "same object" if o.get("same") else "")
+            print(" expected      :", "refused (panic)" if refused_map(c) else "refused (log.Fatal)" if fatal_expected(c) else expected(c))
         return
     if c.get("op") == "demerge":
         o = ctx.vh_robust("c06", [c])[0]
